@@ -171,8 +171,15 @@ class Task(NamedUIDObject):
                 self.append_z3_assertion(assertion)
                 # finally, add each worker to the "required" resource list
                 self._required_resources.append(worker)
-            # also, don't forget to add the AlternativeWorker assertion
-            self.append_z3_assertion(resource._selection_assertion)
+            # also, don't forget to add the AlternativeWorker assertion. A task that is
+            # not scheduled does not have to select workers (otherwise it would take part
+            # in the SameWorkers/DistinctWorkers constraints)
+            if self.optional:
+                self.append_z3_assertion(
+                    z3.Implies(self._scheduled, resource._selection_assertion)
+                )
+            else:
+                self.append_z3_assertion(resource._selection_assertion)
         elif isinstance(resource, Worker):
             resource_busy_start = z3.Int(f"{resource.name}_busy_{self.name}_start")
             resource_busy_end = z3.Int(f"{resource.name}_busy_{self.name}_end")
